@@ -13,6 +13,11 @@ sync / atomic object, or is on the reviewed exemption list below; no mutex is re
 held; the lock-order graph between the modelled objects is acyclic; user code (hooks, codecs,
 callbacks) runs under a lock exactly at the reviewed sites; a slice whose backing array leaves a
 critical section through a local alias is never written in place.
+
+Part 3 (same regeneration): what a lock-set rule cannot see, each as a table equal to a reviewed
+list – writes through element pointers whose struct type leaves the object (`*Frame`), call-outs
+under a read-held mutex of an object that has a writer (reader re-entrancy), and the operations on
+`sync.Cond` / `sync.WaitGroup` fields with the locks held around them.
 -/
 import Uniflow.Model.LockSem
 import Uniflow.Model.Lockset
@@ -362,3 +367,72 @@ def C20.reviewedMultiSection : List (String × String × String × Nat) :=
 theorem C20.sections_reviewed :
     (acquireSites.filter (fun a => a.2.2.2 != 1)).all (fun a => C20.reviewedMultiSection.contains a) = true := by
   decide
+
+/-! ## Part 3: what the lock-set rule cannot see (added after the stress program's findings) -/
+
+/-- Writes through element pointers of a container field whose struct type also leaves the object
+(returned by an exported method, passed to watchers/hooks): each one needs a review. None is left
+since 1477bf7 (agent frames are replaced by an updated copy instead of being completed in place). -/
+def C20.reviewedPublishedWrites : List (String × String × String × String × String) := []
+
+theorem C20.published_elements_not_written :
+    publishedElemWrites.all (fun w => C20.reviewedPublishedWrites.contains w) = true := by decide
+
+/-- Non-vacuity: the frames of the agent *are* published both ways, and the in-place completion
+of a frame that the source had before the repair is exactly what the table would flag. -/
+theorem C20.published_elements_not_written_nonvacuous :
+    publishedElems.contains ("runtime.Agent", "runtime.Frame", "returned by Frames") = true ∧
+    publishedElems.contains ("runtime.Agent", "runtime.Frame", "passed to runtime.Watchers.OnFrame") = true ∧
+    publishedWritesOf (("runtime.Agent", "hooks", "frames", "runtime.Frame", "OutPck") :: elemWrites) publishedElems
+      = [("runtime.Agent", "hooks", "frames", "runtime.Frame", "OutPck")] ∧
+    publishedWritesOf [("runtime.Agent", "hooks", "frames", "runtime.Unpublished", "X")] publishedElems = [] := by decide
+
+/-- Code outside the modelled objects that runs while a mutex is only read-held, in an object
+that has a writer: a callee that re-enters a read-locking method of the same object deadlocks as
+soon as a writer waits in between (Go's RWMutex is not re-entrant for readers). Reviewed sites:
+* `DecoderGroup.Decode` / `EncoderGroup.Encode` run their codecs under the group's RLock; the
+  writer is `Add`. The groups the assemblers build are filled before they are published and never
+  added to afterwards; their codecs recurse into the codecs of *other* types (other groups).
+  A user-built group that is added to while its own decoders re-enter it would be exposed.
+* `segment.Range` yields to `store.find`'s loop body under the segment's RLock, and `store.find`
+  calls the (internal) scanners under the store's lock (read-held when called from `Find`): neither
+  calls back into the segment/store; every segment writer runs under the store's exclusive lock
+  (`C20.segment_under_store_lock`), so no writer can be waiting while `find` is running.
+The assemblers' `Compile` is *not* on this list any more (d77bf02). -/
+def C20.reviewedReadLockCallouts : List (String × String × String) :=
+  [("encoding.DecoderGroup.Decode", "dyn:encoding.Decoder.Decode", "encoding.DecoderGroup.mu"),
+   ("encoding.EncoderGroup.Encode", "dyn:encoding.Encoder.Encode", "encoding.EncoderGroup.mu"),
+   ("store.segment.Range", "dyn:func.yield", "store.segment.mu"),
+   ("store.store.find", "dyn:store.scanner.Range", "store.store.mu"),
+   ("store.store.find", "dyn:store.scanner.Scan", "store.store.mu")]
+
+theorem C20.read_lock_callouts_reviewed :
+    readLockCallouts.all (fun c => C20.reviewedReadLockCallouts.contains c) = true := by decide
+
+/-- Non-vacuity: the rule is about read-held locks of objects with a writer – the groups have
+one (`Add`), and a call-out under an exclusive lock (the writer's hooks) is not on this list. -/
+theorem C20.read_lock_callouts_nonvacuous :
+    readLockCallouts.contains ("encoding.DecoderGroup.Decode", "dyn:encoding.Decoder.Decode", "encoding.DecoderGroup.mu") = true ∧
+    hasWriter "encoding.DecoderGroup.mu" = true ∧
+    callouts.contains ("packet.Writer.Write", "packet.Hooks.Handle", "packet.Writer.mu") = true ∧
+    readLockCallouts.contains ("packet.Writer.Write", "packet.Hooks.Handle", "packet.Writer.mu") = false := by decide
+
+/-- Condition variables held in fields: every `Wait`, `Signal` and `Broadcast` is made while a
+mutex of the object is held exclusively (the counter a `Wait` re-checks and the `Broadcast` that
+follows its change are then in one critical section each – no lost wake-up). -/
+theorem C20.cond_ops_under_lock : condOps.all (fun o => !o.heldExcl.isEmpty) = true := by decide
+
+/-- `sync.WaitGroup` fields (Add must be ordered before Wait; a field shared between goroutines
+cannot promise that – `Process.wait` was one, see 37f33b8): exactly the reviewed sites, none. -/
+def C20.reviewedWaitGroupOps : List (String × String × String × String) := []
+
+theorem C20.waitgroup_ops_reviewed :
+    waitGroupOps.all (fun o => C20.reviewedWaitGroupOps.contains (o.typ, o.meth, o.field, o.op)) = true := by decide
+
+/-- Non-vacuity: the table sees the sync objects (the process's join condition, the lazy cell's
+atomic flag, the codec caches). -/
+theorem C20.sync_ops_nonvacuous :
+    condOps.any (fun o => o.typ == "process.Process" && o.meth == "Join" && o.op == "Wait") = true ∧
+    condOps.any (fun o => o.typ == "process.Process" && o.meth == "Fork" && o.op == "Broadcast") = true ∧
+    syncOps.any (fun o => o.kind == "sync.Map" && o.op == "Store") = true ∧
+    syncOps.any (fun o => o.kind == "atomic.Uint32") = true := by decide
